@@ -155,9 +155,26 @@ Section Policy.
     if p_reset P preemptive then map (fun p => (fst p, map (wreset L) (snd p))) c else c.
   Definition ordered (P : policy) (now : Z) (offered : list task) : list task :=
     sort_by (fun t => p_key P now (t_attrs t)) offered.
+  (* WorkerPool.place_task refuses (ValueError) a task that is already placed on that pool (/repo 17757a8).  On the
+     planning copy this can only happen to a task that the policy itself placed there earlier in the same invocation,
+     i.e. when a task is offered twice and its first fitting pool is the same both times; the exception ends
+     schedule().  (A task already resident on the copy is never offered: not modelled.) *)
+  Fixpoint placed_on (t pid : Z) (ds : list decision) : bool :=
+    match ds with
+    | [] => false
+    | DPlace t' pid' _ _ :: r => ((t' =? t) && (pid' =? pid)) || placed_on t pid r
+    | _ :: r => placed_on t pid r
+    end.
+  Fixpoint place_twice (ds : list decision) : bool :=
+    match ds with
+    | [] => false
+    | DPlace t pid _ _ :: r => placed_on t pid r || place_twice r
+    | _ :: r => place_twice r
+    end.
   Definition schedule_full (P : policy) (enforce preemptive : bool) (now : Z) (c : cluster) (offered : list task)
     : result (list decision * cluster) :=
-    run P enforce now (virtual P preemptive c) (ordered P now offered).
+    bind (run P enforce now (virtual P preemptive c) (ordered P now offered))
+         (fun o => if place_twice (fst o) then Err 3 else Ok o).
   Definition schedule (P : policy) (enforce preemptive : bool) (now : Z) (c : cluster) (offered : list task)
     : result (list decision) :=
     bind (schedule_full P enforce preemptive now c offered) (fun o => Ok (fst o)).
